@@ -52,6 +52,7 @@ uint64_t sim_steps(void);
 void sim_progress(void);
 void sim_set_quiet_ns(uint64_t ns); /* idle stuck budget (default 40 ticks) */
 void sim_compute(uint64_t ns);      /* this kernel thread is unavailable for ns */
+void sim_compute_until(uint64_t abs_ns); /* ... until the simulated clock reads abs_ns */
 int sim_thread_id(void);
 void sim_yield_point(void); /* explicit scheduling point */
 void sim_preempt_off(void); /* prefill phases: no preemption, no step cost */
@@ -88,6 +89,7 @@ uint64_t sim_switch_ins_others(void* f); /* switch-ins of fibers other than f on
 uint64_t sim_fiber_switches_on_thread(int t);
 
 /* ---- allocator oracle ---- */
+void sim_mem_hold(void* p); /* a later free() of p is recorded (ledger, ghosts) but the memory stays readable */
 int sim_mem_is_live(const void* p);
 int sim_mem_is_freed(const void* p);
 size_t sim_live_blocks(void);
